@@ -13,6 +13,8 @@
 //!       {"do":"Settle"}     iterate until nothing changes; the record is marked quiescent ("q":true)
 //!       {"do":"PollWoken"}  poll every worker whose waker fired (timers, stop messages)
 
+mod e2e;
+
 use actix_server::verif::{Act, AvailProbe, LKind, Sim, SimCfg, Snap, SvcEvent};
 use vcore::{arg, geti, gets, json, read_ndjson, Trace, Value};
 
@@ -521,6 +523,105 @@ fn main() {
             println!("{}", json!({"indices": 512, "pairs": pairs, "mismatches": bad.len(), "overflow_panics": overflow_panics,
                                   "first_mismatches": bad.iter().take(10).collect::<Vec<_>>()}));
         }
+        // end-to-end shutdown scenarios on a real Server (real threads / sockets / time, child process for signals)
+        "e2e" => {
+            let scenarios = read_ndjson(&arg("--scenarios").expect("--scenarios"));
+            let mut trace = Trace::create(&arg("--trace").expect("--trace"));
+            // all scenarios run concurrently: they mostly sleep
+            let handles: Vec<_> = scenarios
+                .iter()
+                .cloned()
+                .map(|sc| {
+                    std::thread::spawn(move || {
+                        if sc.get("signal").is_some() {
+                            e2e::run_signal_scenario(&sc)
+                        } else {
+                            e2e::run_scenario(&sc)
+                        }
+                    })
+                })
+                .collect();
+            let mut nev = 0usize;
+            for (run, (h, sc)) in handles.into_iter().zip(scenarios.iter()).enumerate() {
+                let events = h.join().unwrap_or_else(|_| vec![json!({"e": "DriverPanic"}), json!({"e": "End"})]);
+                trace.emit(&json!({"ev": "reset", "run": run, "scenario": sc}));
+                for rec in project_e2e(run, sc, &events) {
+                    trace.emit(&rec);
+                    nev += 1;
+                }
+            }
+            trace.finish();
+            println!("{}", json!({"runs": scenarios.len(), "steps": nev, "mismatches": 0, "first_mismatches": []}));
+        }
+        "e2e-child" => e2e::child_main(),
         other => panic!("unknown mode {other}"),
     }
+}
+
+/// cumulative projection of an event list onto what ServerStopTrace.tla's predicates read
+fn project_e2e(run: usize, sc: &Value, events: &[Value]) -> Vec<Value> {
+    let timeout_ms = sc["shutdown_s"].as_u64().unwrap_or(1) * 1000;
+    let held_forever = sc["release"]
+        .as_array()
+        .map(|a| a.iter().any(|r| r["at"] == "never"))
+        .unwrap_or(false)
+        || (sc.get("signal").is_some() && sc["close_after_ms"].is_null());
+    let mut live: Vec<u64> = vec![];
+    let mut live_at_stop: Vec<u64> = vec![];
+    let mut stop_ms: i64 = -1;
+    let mut graceful = true;
+    let mut stops: Vec<u64> = vec![];
+    let mut resolved: Vec<u64> = vec![];
+    let mut dropped: Vec<u64> = vec![];
+    let mut server_done = false;
+    let mut server_done_ms: i64 = -1;
+    let mut late_served = false;
+    let mut out = vec![];
+    for (k, e) in events.iter().enumerate() {
+        let name = e["e"].as_str().unwrap_or("");
+        let ms = e["ms"].as_i64().unwrap_or(0);
+        match name {
+            "ConnStarted" => {
+                let c = e["c"].as_u64().unwrap_or(0);
+                live.push(c);
+                if server_done {
+                    late_served = true;
+                }
+            }
+            "ConnFinished" => {
+                let c = e["c"].as_u64().unwrap_or(0);
+                live.retain(|x| *x != c);
+            }
+            "StopCalled" => {
+                if e.get("signal").is_none() {
+                    // a signal has no stop future to resolve
+                    stops.push(e["id"].as_u64().unwrap_or(0));
+                }
+                if stop_ms < 0 {
+                    stop_ms = ms;
+                    graceful = e["graceful"].as_bool().unwrap_or(true);
+                    live_at_stop = live.clone();
+                }
+            }
+            "StopFutureDropped" => dropped.push(e["id"].as_u64().unwrap_or(0)),
+            "StopResolved" => resolved.push(e["id"].as_u64().unwrap_or(0)),
+            "ServerResolved" | "ChildExited" => {
+                if name == "ServerResolved" || e["ok"].as_bool().unwrap_or(false) {
+                    if !server_done {
+                        server_done_ms = ms;
+                    }
+                    server_done = true;
+                }
+            }
+            _ => {}
+        }
+        let still: Vec<u64> = live_at_stop.iter().cloned().filter(|c| live.contains(c)).collect();
+        out.push(json!({"ev": "step", "run": run, "k": k, "e": name, "ms": ms,
+            "live": live, "liveAtStopStillLive": still, "stopMs": stop_ms, "graceful": graceful,
+            "sinceStop": if stop_ms >= 0 { ms - stop_ms } else { -1 }, "timeoutMs": timeout_ms,
+            "stops": stops, "resolved": resolved, "dropped": dropped,
+            "serverDone": server_done, "doneSinceStop": if server_done && stop_ms >= 0 { server_done_ms - stop_ms } else { -1 },
+            "lateServed": late_served, "heldForever": held_forever, "raw": e}));
+    }
+    out
 }
